@@ -16,10 +16,12 @@
      a union step and its reverse (Quotient) like a Complement step.
    * EquivalencePathRule: DisjointUnion(start, (end,), (composed ep,), (fixed_values,)) where
      fixed_values = {k: 0 for the end class's parameters no start parameter is mapped to}.
-     DisjointUnion.get_equation never reads fixed_values: the end class's own variable stays in
-     the equation.  That is right exactly when the statistic is 0 on every object of the end
-     class (zero_on), which is what fixed_values asserts; it is wrong when the statistic is a
-     genuine one that get_terms sums out (union_unmapped_refuted below; open finding).      *)
+     DisjointUnion.get_equation never reads fixed_values.  Since fix FIXHASH_EQ it sets the variable
+     of such a parameter to 1 (the statistic is summed out, as get_terms does): right for every
+     genuine rule (path_equation_holds, Count/EquationsRules.v).  BEFORE the fix the end class's own
+     variable stayed in the equation: right exactly when the statistic is 0 on every object of the
+     end class (zero_on; path_equation_old_holds0), wrong when it is a genuine one
+     (union_unmapped_refuted below; the finding repaired by the fix).                        *)
 From Coq Require Import ZArith List Bool Lia.
 From CSS Require Import Count.Series Count.Equations Count.EquationsProofs Count.EquationsRules.
 Import ListNotations.
@@ -37,31 +39,32 @@ Variable T : Z -> Z -> list (list Z * Z).
 Variable O : Z -> poly.
 Variable V : list Z.
 
-(* EquivalenceRule of a union rule; unmapped child parameters may be identically 0 *)
-Theorem equiv_equation_holds0 o cidx N :
+(* HISTORY (the method before the fix): EquivalenceRule of a union rule; unmapped child parameters had to
+   be identically 0 *)
+Theorem equiv_equation_old_holds0 o cidx N :
   let p := o_parent o in let c := nth cidx (o_children o) (-1) in let ep := nth cidx (o_eps o) [] in
   class_wf pars T p -> kid_wf0 pars T (pars p) (c, ep) -> union_genuine pars T p [(c, ep)] ->
-  match rule_equation pars (REquivUnion o cidx) with
+  match rule_equation_old pars (REquivUnion o cidx) with
   | Ok lhs rhs => holds (SN T N) O V N lhs rhs
   | _ => False
   end.
 Proof.
   intros p c ep Wp Wk G.
-  exact (union_equation_holds0 pars T O V p [(c, ep)] N Wp (Forall_cons _ Wk (Forall_nil _)) G).
+  exact (union_equation_old_holds0 pars T O V p [(c, ep)] N Wp (Forall_cons _ Wk (Forall_nil _)) G).
 Qed.
 
-(* EquivalencePathRule whose end class may track statistics that no start parameter is mapped
-   to, provided they are 0 on every object of the end class: the fixed_values case *)
-Theorem path_equation_holds0 p steps c ep N :
+(* HISTORY: EquivalencePathRule whose end class may track statistics that no start parameter is mapped
+   to, provided they are 0 on every object of the end class: the fixed_values case before the fix *)
+Theorem path_equation_old_holds0 p steps c ep N :
   path_eps (pars p) steps = Some ep ->
   class_wf pars T p -> kid_wf0 pars T (pars p) (c, ep) -> union_genuine pars T p [(c, ep)] ->
-  match rule_equation pars (RPath p steps c) with
+  match rule_equation_old pars (RPath p steps c) with
   | Ok lhs rhs => holds (SN T N) O V N lhs rhs
   | _ => False
   end.
 Proof.
-  intros E Wp Wk G. cbn [rule_equation]. rewrite E.
-  exact (union_equation_holds0 pars T O V p [(c, ep)] N Wp (Forall_cons _ Wk (Forall_nil _)) G).
+  intros E Wp Wk G. unfold rule_equation_old. cbn [rule_equation_with]. rewrite E.
+  exact (union_equation_old_holds0 pars T O V p [(c, ep)] N Wp (Forall_cons _ Wk (Forall_nil _)) G).
 Qed.
 
 (* EquivalenceRule(ReverseRule(union rule p -> (.., c, ..))) with the EMPTY dictionary:
@@ -77,13 +80,13 @@ Theorem equiv_rev_equation_holds c p N :
   end.
 Proof.
   intros Wp Wk G.
-  pose proof (union_equation_holds0 pars T O V p [(c, [])] N Wp (Forall_cons _ Wk (Forall_nil _)) G) as H.
-  cbn [union_equation map fst snd combine fold_left] in H.
+  pose proof (union_equation_old_holds0 pars T O V p [(c, [])] N Wp (Forall_cons _ Wk (Forall_nil _)) G) as H.
+  cbn [union_equation_old map fst snd combine fold_left] in H.
   change (union_subs []) with (@nil (Z * expr)) in H. rewrite subs_nil_cfun in H.
   unfold holds in H. cbn [undiv fst snd] in H.
   destruct H as [a [q [Ha [Hq H]]]]. rewrite sem_cfun in Ha. injection Ha as <-.
   cbn [sem] in Hq. rewrite sem_cfun in Hq. cbn [lift2] in Hq. injection Hq as <-.
-  cbn [rule_equation complement_equation any_params existsb orb fold_left].
+  unfold rule_equation. cbn [rule_equation_with complement_equation any_params existsb orb fold_left].
   unfold holds. unfold cfun at 1 2. cbn [undiv fst snd]. fold (cfun pars c). fold (cfun pars p).
   eexists. eexists. split; [apply sem_cfun|]. split; [apply sem_cfun|].
   intros m Hm. rewrite (H m Hm).
@@ -100,7 +103,7 @@ Theorem equiv_rev_with_parameters c p ep :
   rule_equation pars (REquivRev c p ep) = NotImpl /\
   spec_equation pars (REquivRev c p ep) = Ok (cfun pars c) (Fun (-1) [Var 0]).
 Proof.
-  intros Hne. unfold spec_equation. cbn [rule_equation rule_class].
+  intros Hne. unfold spec_equation, placeholder, rule_equation. cbn [rule_equation_with rule_class].
   unfold complement_equation. destruct ep as [|a t]; [congruence|]. cbn [any_params existsb orb].
   split; reflexivity.
 Qed.
@@ -139,7 +142,8 @@ Theorem plain_rule_has_equation pars r :
 Proof.
   intros H.
   assert (rule_equation pars r <> NotImpl) as A.
-  { destruct r as [o|o|o idx|o idx|o cidx|c p ep|c p|p steps c|p c|c m|c|c]; cbn [rule_equation rule_plain] in *;
+  { unfold rule_equation.
+    destruct r as [o|o|o idx|o idx|o cidx|c p ep|c p|p steps c|p c|c m|c|c]; cbn [rule_equation_with rule_plain] in *;
       try discriminate; try contradiction.
     - unfold complement_equation. rewrite H. cbn [map]. discriminate.
     - unfold quotient_equation. rewrite H. cbn [map]. discriminate.
@@ -147,15 +151,15 @@ Proof.
     - unfold path_eps. destruct (path_eps_plain steps (map (fun k => (k, k)) (pars p)) H) as [ep' ->].
       discriminate.
     - rewrite H. discriminate. }
-  split; [exact A|]. unfold spec_equation. destruct (rule_equation pars r); auto. congruence.
+  split; [exact A|]. unfold spec_equation, placeholder. destruct (rule_equation pars r); auto. congruence.
 Qed.
 
 (* ------------------------------------------------------------ the unmapped-child-parameter defect *)
 (* parent 0 tracks k = number of a's (variable 1); child 1 = the same words, tracking k and
    additionally e = number of b's (variable 2); extra_parameters = {k: k}.  One word, "ab".
-   get_terms sums e out: the rule is genuine.  DisjointUnion.get_equation emits
+   get_terms sums e out: the rule is genuine.  DisjointUnion.get_equation BEFORE the fix emitted
    F_0(x,k) = 0 + F_1(x,k,e): the coefficient of x^2*k*e is 0 on the left and 1 on the right.
-   (With e := 1 the equation would hold.)  Same for the path  0 -> 1, whose constructor has
+   (With e := 1, as the repaired method writes it, the equation holds: union_equation_holds.)  Same for the path  0 -> 1, whose constructor has
    fixed_values = {e: 0}. *)
 Definition um_pars (l : Z) : list Z := match l with 0 => [1] | 1 => [1; 2] | _ => [] end.
 Definition um_T (l n : Z) : list (list Z * Z) :=
@@ -192,12 +196,12 @@ Theorem union_unmapped_refuted :
   class_wf um_pars um_T 0 /\ class_wf um_pars um_T 1 /\
   NoDup (map fst (snd (1, [(1, 1)]))) /\ incl [1] (um_pars 0) /\ incl [1] (um_pars 1) /\
   union_genuine um_pars um_T 0 um_kids /\
-  ~ match union_equation (cfun um_pars 0) (map (cfun um_pars) (map fst um_kids)) (map snd um_kids) with
+  ~ match union_equation_old (cfun um_pars 0) (map (cfun um_pars) (map fst um_kids)) (map snd um_kids) with
     | Ok lhs rhs => holds (SN um_T 2) (fun _ => []) um_V 2 lhs rhs
     | _ => False
     end /\
-  rule_equation um_pars (RPath 0 [(false, [(1, 1)])] 1) =
-    union_equation (cfun um_pars 0) (map (cfun um_pars) (map fst um_kids)) (map snd um_kids).
+  rule_equation_old um_pars (RPath 0 [(false, [(1, 1)])] 1) =
+    union_equation_old (cfun um_pars 0) (map (cfun um_pars) (map fst um_kids)) (map snd um_kids).
 Proof.
   split; [apply um_class_wf; auto|]. split; [apply um_class_wf; auto|].
   split; [repeat constructor; simpl; tauto|].
@@ -227,10 +231,207 @@ Theorem plain_path_is_union pars p steps c :
   pars p = [] -> Forall (fun st : bool * list (Z * Z) => snd st = []) steps ->
   rule_equation pars (RPath p steps c) = rule_equation pars (RUnion (mkorule p [c] [[]])).
 Proof.
-  intros Hp HF. cbn [rule_equation o_parent o_children o_eps map]. unfold path_eps. rewrite Hp.
+  intros Hp HF. unfold rule_equation. cbn [rule_equation_with o_parent o_children o_eps map]. unfold path_eps. rewrite Hp.
   cbn [map]. rewrite (path_eps_nil steps [] HF eq_refl). reflexivity.
 Qed.
 
 Theorem plain_equiv_rev_is_complement pars c p :
   rule_equation pars (REquivRev c p []) = rule_equation pars (RRevUnion (mkorule p [c] [[]]) 0).
 Proof. reflexivity. Qed.
+
+(* ------------------------------------------------------------ HISTORY: where the fix changed nothing *)
+(* When every parameter of a child is the image of a parent parameter the repaired substitution is the old
+   union substitution, and when in addition no two parent parameters share a child parameter the old
+   product substitution is the same too: on such rules the methods before and after the fix emit the SAME
+   equation (so every theorem about the repaired code also speaks about the code before the fix there). *)
+Definition covered (pars : Z -> list Z) (k : Z * list (Z * Z)) : Prop :=
+  forall cv, In cv (pars (fst k)) -> has_par (snd k) cv = true.
+
+Lemma fix_fold_covered (ep : list (Z * Z)) (l : list Z) :
+  (forall cv, In cv l -> has_par ep cv = true) ->
+  fold_left fix_step (map Var l) (union_subs ep) = union_subs ep.
+Proof.
+  intros H. induction l as [|v t IH]; simpl; auto.
+  pose proof (good_union_subs ep v) as G.
+  destruct (alookup v (union_subs ep)) eqn:E.
+  - apply IH. intros cv Hcv. apply H. right; auto.
+  - rewrite (H v (or_introl eq_refl)) in G. discriminate.
+Qed.
+
+Lemma full_subs_covered pars k : covered pars k -> full_subs (cfun pars (fst k)) (snd k) = union_subs (snd k).
+Proof. intros H. rewrite full_subs_cfun. apply fix_fold_covered. exact H. Qed.
+
+Lemma fold_left_ext_in {A B} (f g : A -> B -> A) (l : list B) :
+  (forall a x, In x l -> f a x = g a x) -> forall a, fold_left f l a = fold_left g l a.
+Proof.
+  induction l as [|x t IH]; intros H a; simpl; auto.
+  rewrite H by (left; auto). apply IH. intros a' x' Hx'. apply H. right; auto.
+Qed.
+
+Theorem union_equation_old_same pars lhs kids :
+  Forall (covered pars) kids ->
+  union_equation_old lhs (map (cfun pars) (map fst kids)) (map snd kids) =
+  union_equation lhs (map (cfun pars) (map fst kids)) (map snd kids).
+Proof.
+  intros HF. unfold union_equation, union_equation_old. f_equal.
+  assert (combine (map (cfun pars) (map fst kids)) (map snd kids) =
+          map (fun k => (cfun pars (fst k), snd k)) kids) as E.
+  { clear. induction kids as [|[a b] t IH]; simpl; auto. rewrite IH. reflexivity. }
+  rewrite E. apply fold_left_ext_in. intros a x Hx. apply in_map_iff in Hx. destruct Hx as [k [<- Hk]].
+  cbn [fst snd]. rewrite full_subs_covered; auto. rewrite Forall_forall in HF. auto.
+Qed.
+
+Theorem product_equation_old_same pars lhs kids :
+  Forall (fun k => covered pars k /\ NoDup (map snd (snd k))) kids ->
+  product_equation_old lhs (map (cfun pars) (map fst kids)) (map snd kids) =
+  product_equation lhs (map (cfun pars) (map fst kids)) (map snd kids).
+Proof.
+  intros HF. unfold product_equation, product_equation_old. f_equal.
+  assert (combine (map snd kids) (map (cfun pars) (map fst kids)) =
+          map (fun k => (snd k, cfun pars (fst k))) kids) as E.
+  { clear. induction kids as [|[a b] t IH]; simpl; auto. rewrite IH. reflexivity. }
+  rewrite E. apply fold_left_ext_in. intros a x Hx. apply in_map_iff in Hx. destruct Hx as [k [<- Hk]].
+  cbn [fst snd]. rewrite Forall_forall in HF. destruct (HF k Hk) as [Hc Hi].
+  rewrite full_subs_covered by auto. rewrite prod_subs_eq_union by auto. reflexivity.
+Qed.
+
+(* ------------------------------------------------------------ the PROPOSED guard of the reverse constructors *)
+(* With the guard (Complement / Quotient refuse as soon as a function carries a parameter) the reverse of EVERY
+   genuine union / product rule with well-formed dictionaries has a satisfied equation: the literal one exactly
+   when nothing has parameters, the original rule's otherwise. *)
+Lemma has_args_cfun pars l : has_args (cfun pars l) = match pars l with [] => false | _ => true end.
+Proof. unfold cfun. destruct (pars l); reflexivity. Qed.
+
+Lemma any_params_false_plain (kids : list (Z * list (Z * Z))) :
+  any_params (map snd kids) = false -> kids = plain_kids (map fst kids).
+Proof.
+  induction kids as [|[c ep] t IH]; simpl; auto. destruct ep; [|discriminate].
+  simpl. intros H. rewrite <- IH by auto. reflexivity.
+Qed.
+
+Lemma In_nth_or_removed {A} (l : list A) i d x : (i < length l)%nat -> In x l -> x = nth i l d \/ In x (remove_nth i l).
+Proof.
+  unfold remove_nth. revert i. induction l as [|a t IH]; intros i Hi Hx; [destruct Hx|].
+  destruct i as [|i]; simpl in *.
+  - destruct Hx as [<-|Hx]; auto.
+  - destruct Hx as [<-|Hx]; [right; left; reflexivity|].
+    destruct (IH i ltac:(lia) Hx) as [E|E]; [left; exact E|right; right; exact E].
+Qed.
+
+Section Guarded.
+Variable pars : Z -> list Z.
+Variable T : Z -> Z -> list (list Z * Z).
+Variable O : Z -> poly.
+Variable V : list Z.
+
+Lemma guard_no_params p cs idx :
+  (idx < length cs)%nat ->
+  existsb has_args (cfun pars (nth idx cs (-1)) :: map (cfun pars) (p :: remove_nth idx cs)) = false ->
+  no_params pars p cs.
+Proof.
+  intros Hidx H. cbn [existsb map] in H. apply orb_false_iff in H. destruct H as [H1 H].
+  apply orb_false_iff in H. destruct H as [H2 H3].
+  rewrite has_args_cfun in H1, H2.
+  split; [destruct (pars p); [reflexivity|discriminate]|].
+  intros c Hc. destruct (In_nth_or_removed cs idx (-1) c Hidx Hc) as [->|Hr].
+  - destruct (pars (nth idx cs (-1))); [reflexivity|discriminate].
+  - assert (has_args (cfun pars c) = false) as Hf.
+    { destruct (has_args (cfun pars c)) eqn:E; auto.
+      assert (existsb has_args (map (cfun pars) (remove_nth idx cs)) = true) as X.
+      { apply existsb_exists. exists (cfun pars c). split; auto. apply in_map. exact Hr. }
+      congruence. }
+    rewrite has_args_cfun in Hf. destruct (pars c); [reflexivity|discriminate].
+Qed.
+
+Theorem reverse_union_guarded_holds p kids idx N :
+  class_wf pars T p -> Forall (kid_wfd pars T (pars p)) kids -> union_genuine pars T p kids ->
+  (idx < length kids)%nat ->
+  match rule_equation_guarded pars (RRevUnion (mkorule p (map fst kids) (map snd kids)) idx) with
+  | Ok lhs rhs => holds (SN T N) O V N lhs rhs
+  | _ => False
+  end.
+Proof.
+  intros Wp Wk G Hidx. unfold rule_equation_guarded. cbn [rule_equation_with o_parent o_children o_eps].
+  pose proof (union_equation_holds pars T O V p kids N Wp Wk G) as U.
+  unfold complement_equation_g.
+  destruct (existsb has_args _) eqn:Eg; [exact U|].
+  unfold complement_equation at 1. destruct (any_params (map snd kids)) eqn:Ea; [exact U|].
+  assert (idx < length (map fst kids))%nat as Hidx' by (rewrite map_length; exact Hidx).
+  pose proof (guard_no_params p (map fst kids) idx Hidx' Eg) as NP.
+  pose proof (any_params_false_plain kids Ea) as Ek.
+  assert (forall c, In c (map fst kids) -> class_wf pars T c) as Wc.
+  { intros c Hc. apply in_map_iff in Hc. destruct Hc as [k [<- Hk]]. rewrite Forall_forall in Wk. apply (Wk k Hk). }
+  rewrite Ek in G.
+  pose proof (complement_equation_holds pars T O V p (map fst kids) idx N NP Wp Wc G Hidx') as C.
+  rewrite <- Ek in C. unfold complement_equation in C. rewrite Ea in C. exact C.
+Qed.
+
+Theorem reverse_product_guarded_holds p kids idx N :
+  class_wf pars T p -> Forall (kid_wfd pars T (pars p)) kids -> product_genuine pars T V p kids N ->
+  (idx < length kids)%nat ->
+  match rule_equation_guarded pars (RRevProduct (mkorule p (map fst kids) (map snd kids)) idx) with
+  | Ok lhs rhs => holds (SN T N) O V N lhs rhs
+  | _ => False
+  end.
+Proof.
+  intros Wp Wk G Hidx. unfold rule_equation_guarded. cbn [rule_equation_with o_parent o_children o_eps].
+  pose proof (product_equation_holds pars T O V p kids N Wp Wk G) as U.
+  unfold quotient_equation_g.
+  destruct (existsb has_args _) eqn:Eg; [exact U|].
+  unfold quotient_equation at 1. destruct (any_params (map snd kids)) eqn:Ea; [exact U|].
+  assert (idx < length (map fst kids))%nat as Hidx' by (rewrite map_length; exact Hidx).
+  pose proof (guard_no_params p (map fst kids) idx Hidx' Eg) as NP.
+  pose proof (any_params_false_plain kids Ea) as Ek.
+  assert (forall c, In c (map fst kids) -> class_wf pars T c) as Wc.
+  { intros c Hc. apply in_map_iff in Hc. destruct Hc as [k [<- Hk]]. rewrite Forall_forall in Wk. apply (Wk k Hk). }
+  rewrite Ek in G.
+  pose proof (quotient_equation_holds pars T O V p (map fst kids) idx N NP Wp Wc G Hidx') as C.
+  rewrite <- Ek in C. unfold quotient_equation in C. rewrite Ea in C. exact C.
+Qed.
+
+End Guarded.
+
+(* ------------------------------------------------------------ what the fix leaves: the literal reverse equation *)
+(* parent 0 tracks nothing, its only child 1 = the same words tracking e (variable 2); dictionary {}.  The
+   rule is genuine.  Complement.get_equation (the dictionaries are empty, so it does not refuse) emits
+   F_1(x,e) = F_0(x): coefficient of x^2*e is 1 on the left, 0 on the right.  With the proposed guard the
+   reverse rule falls back to F_0(x) = 0 + F_1(x,1). *)
+Definition rv_pars (l : Z) : list Z := match l with 1 => [2] | _ => [] end.
+Definition rv_T (l n : Z) : list (list Z * Z) :=
+  match l, n with
+  | 0, 2 => [([], 1)]
+  | 1, 2 => [([1], 1)]
+  | _, _ => []
+  end.
+Lemma rv_class_wf l : l = 0 \/ l = 1 -> class_wf rv_pars rv_T l.
+Proof.
+  intros Hl. split; [|split].
+  - destruct Hl; subst l; simpl; repeat constructor; simpl; intuition discriminate.
+  - destruct Hl; subst l; simpl; intuition discriminate.
+  - intros n t. destruct Hl; subst l; destruct n as [|[[p'|p'|]|[p'|p'|]|]|p']; simpl; try tauto;
+      intros [<-|[]]; reflexivity.
+Qed.
+Lemma rv_kids_wfd : Forall (kid_wfd rv_pars rv_T (rv_pars 0)) [(1, [])].
+Proof.
+  constructor; [|constructor]. split; [apply rv_class_wf; auto|]. cbn [fst snd map].
+  split; [constructor|]. split; intros x [].
+Qed.
+Lemma rv_genuine : union_genuine rv_pars rv_T 0 [(1, [])].
+Proof.
+  intros n Hn e. cbn [psum fst snd].
+  destruct n as [|[[p'|p'|]|[p'|p'|]|]|p']; try reflexivity.
+  unfold cnt. simpl. lia.
+Qed.
+Theorem reverse_unmapped_refuted :
+  rule_equation rv_pars (RRevUnion (mkorule 0 [1] [[]]) 0) = Ok (Fun 1 [Var 0; Var 2]) (Fun 0 [Var 0]) /\
+  ~ match rule_equation rv_pars (RRevUnion (mkorule 0 [1] [[]]) 0) with
+    | Ok lhs rhs => holds (SN rv_T 2) (fun _ => []) [0; 2] 2 lhs rhs
+    | _ => False
+    end.
+Proof.
+  split; [reflexivity|].
+  intros [p [q [Hp [Hq H]]]]. vm_compute in Hp, Hq.
+  injection Hp as <-. injection Hq as <-.
+  specialize (H (fun u => if u =? 0 then 2 else if u =? 2 then 1 else 0)).
+  vm_compute in H. assert (1 = 0) as E by (apply H; split; discriminate). discriminate E.
+Qed.
